@@ -26,6 +26,15 @@ func TestC14RefDump(t *testing.T) {
 	rapid.Check(t, func(t *rapid.T) {
 		s := c14GenSchema(t, "s")
 		v := c14Normalize(c14GenValues(t, "v", rapid.SampledFrom([]int{1, 3, 6}).Draw(t, "bias")))
+		// nulls that stay in the final values (see c14NullRule) are validated as JSON null
+		for _, k := range []string{"name", "replicas", "debug", "ports", "cfg", "extra"} {
+			if rapid.IntRange(0, 7).Draw(t, "null-"+k) == 0 {
+				v[k] = nil
+			}
+		}
+		if cfg, ok := v["cfg"].(map[string]interface{}); ok && rapid.IntRange(0, 3).Draw(t, "null-cfg.mode") == 0 {
+			cfg["mode"] = nil
+		}
 		_ = enc.Encode(map[string]interface{}{"schema": s, "values": v, "valid": c14Valid(s, v)})
 	})
 }
